@@ -143,6 +143,14 @@ def check_names_as_text(devs, m, want):
     dp = T.DirectoryParams.from_strs(a, b)
     msg = T.DirectoryListingRequest(dp) if m["k"] == "list_req" else T.DirectoryListingResponse(m["ok"], dp)
     eq(devs, "from_strs.pack", bytes(msg.pack()), want)
+    # the path route: the name on the wire is str(path); the *_as_path views are Path(the decoded text)
+    import pathlib
+
+    pa, pb = pathlib.PurePosixPath(a), pathlib.PurePosixPath(b)
+    if len(str(pa).encode()) + len(str(pb).encode()) <= 240:
+        dpp = T.DirectoryParams.from_paths(pa, pb)
+        eq(devs, "from_paths.lv_octets", (bytes(dpp.dir_path.pack()), bytes(dpp.dir_file_name.pack())), (R.lv(str(pa).encode("utf-8")), R.lv(str(pb).encode("utf-8"))))
+    eq(devs, "as_path_views", (dp.dir_path_as_path, dp.dir_file_name_as_path), (pathlib.Path(a), pathlib.Path(b)))
     eq(devs, "from_str.lv", bytes(CfdpLv.from_str(a).pack()), R.lv(a.encode("utf-8")))
     eq(devs, "from_strs.as_str", (dp.dir_path_as_str, dp.dir_file_name_as_str), (a, b))
 
@@ -189,6 +197,13 @@ def check_msg(m):
             else:
                 true(devs, f"{tag}.other_getter_none", got is None, f"{g}() returned {got!r} for a {k} message")
     check_names_as_text(devs, m, want)
+    if k == "put_response":
+        # the documented short cut: the response parameters taken over from the Finished PDU's parameters
+        from spacepackets.cfdp import defs as cd1
+        from spacepackets.cfdp.pdu import FinishedParams
+
+        fp = FinishedParams(cd1.ConditionCode(m["cc"]), cd1.DeliveryCode(m["delivery"]), cd1.FileStatus(m["status"]))
+        eq(devs, "put_response.from_finished_params.pack", bytes(T.ProxyPutResponse(T.ProxyPutResponseParams.from_finished_params(fp)).pack()), want)
     if k in ("put_request", "list_req", "list_resp"):
         # the receiver fills in the names of an earlier decoded message (plain attributes of the decoded LV objects); decoding the same
         # octets afterwards gives the packed parameters again
@@ -254,6 +269,9 @@ def check_msg(m):
                 continue
             if p is not None:
                 eq(devs, f"put_request.{attr}", getattr(p, attr), text)
+                import pathlib as _pl
+
+                eq(devs, f"put_request.{attr.replace('_as_str', '_as_path')}", getattr(p, attr.replace("_as_str", "_as_path")), _pl.Path(text))
     return devs
 
 
